@@ -35,6 +35,26 @@ class PyList:
         self.items = []
 
 
+class AbsList:
+    """a list of symbolically many elements whose leaves at index j are A_leaf(j) (round-trip mode)"""
+    def __init__(self, info, count):
+        self.info = info
+        self.count = count
+
+
+def leaf_value(ex, x, path):
+    """value of the leaf `path` ('' for a plain element, 'a.b' inside structs) of a deserialized element"""
+    if path == "":
+        return x
+    cur = x
+    for part in path.split("."):
+        o = ex.obj(cur)
+        if o is None:
+            return None
+        cur = o.fields.get("_" + part)
+    return cur
+
+
 def encb(v, j):
     if j == 0:
         return v % 253 + 1
@@ -134,6 +154,8 @@ class Builder:
         self.spec = pv.spec
         self.pieces = []       # (seq term, length term, is_break)
         self.count = 0
+        self.offset = I(0)     # running sum of the piece lengths
+        self.sym = {}          # (class name, array name) -> info of an array with a symbolic element count
 
     def fresh_bytes(self, base):
         self.count += 1
@@ -141,6 +163,58 @@ class Builder:
 
     def emit(self, term, length, is_break=False):
         self.pieces.append((term, length, is_break))
+        self.offset = simp(self.offset + length)
+
+    def fixed_layout(self, tref, prefix="", off=0, depth=0):
+        """[(leaf path, leaf type, offset, width)] and total size of a fixed-size element type made of
+        ints / bools / enums / hard-coded ints / nested such structs; None otherwise"""
+        if tref.kind in ("int", "enum", "bool"):
+            w = tref.width
+            return [(prefix.rstrip("."), tref, off, w)], w
+        if tref.kind != "struct" or depth > 3:
+            return None
+        out = []
+        size = 0
+        for ins in tref.struct.body:
+            if ins.tag != "field" or ins.optional:
+                return None
+            t = X.resolve_type(self.spec, ins.type, ins.length if is_str_type(ins.type) else None)
+            if ins.value is not None:
+                if t.kind not in ("int", "bool"):
+                    return None
+                out.append((None, t, off + size, t.width, ins.value))
+                size += t.width
+                continue
+            sub = self.fixed_layout(t, prefix + ins.name + ".", off + size, depth + 1)
+            if sub is None:
+                return None
+            out += sub[0]
+            size += sub[1]
+        return out, size
+
+    def sym_array(self, decl, ins, tref, base, n):
+        """an array of symbolically many (n) fixed-size elements: one opaque piece of n*z bytes; its
+        block structure enters as ground instances at the loop index (split property of the fold)"""
+        ex = self.ex
+        lay = self.fixed_layout(tref)
+        if lay is None:
+            raise Unsupported("array with a symbolic element count whose elements are not fixed-size integers / structs of integers")
+        layout, z = lay
+        if z == 0:
+            raise Unsupported("zero-size element")
+        arr = self.fresh_bytes(base + ins.name + ".arr")
+        ex.fact(z3.Length(arr) == n * z)
+        A = {}
+        for leaf in layout:
+            if leaf[0] is None:
+                continue
+            path, t = leaf[0], leaf[1]
+            sort = BOOL if t.kind == "bool" else INT
+            A[path] = z3.Function(f"A_{base}{ins.name}_{path or 'item'}", INT, sort)
+        info = dict(key=(decl.name, ins.name), off0=self.offset, z=z, n=n, layout=layout, A=A, arr=arr, tref=tref)
+        self.sym[(decl.name, ins.name)] = info
+        self.emit(arr, n * z)
+        return ("symarray", info)
 
     def emit_int(self, v, tref):
         if tref.under == "byte":
@@ -272,7 +346,15 @@ class Builder:
                     if ref is None or ins.optional or ref.optional:
                         raise Unsupported("length field outside the round-trip fragment")
                     if ref.tag == "array":
-                        raise Unsupported("array with a length field (symbolic element count)")
+                        if ref.delimited:
+                            raise Unsupported("delimited array with a length field (break offsets not static)")
+                        cnt = ex.fresh(base + ref.name + ".count")
+                        ex.fact(cnt >= 0)
+                        lenvars[ins.name] = cnt
+                        nn = cnt - ins.offset
+                        ex.fact(z3.And(nn >= 0, nn < tref.limit))
+                        self.emit_int(nn, tref)
+                        continue
                     b = self.fresh_bytes(base + ref.name)
                     lenvars[ins.name] = b
                     n = z3.Length(b) - ins.offset
@@ -281,7 +363,15 @@ class Builder:
                 elif ins.tag == "array":
                     tref = X.resolve_type(spec, ins.type)
                     if ins.length is None or not ins.length.isdigit():
-                        raise Unsupported("array without a literal length (symbolic element count)")
+                        if ins.delimited or ins.optional:
+                            raise Unsupported("delimited / optional array with a symbolic element count")
+                        if ins.length is not None:
+                            cnt = lenvars[ins.length]
+                        else:
+                            cnt = ex.fresh(base + ins.name + ".count")      # read to the end of the chunk / data
+                            ex.fact(cnt >= 0)
+                        model[ins.name] = self.sym_array(decl, ins, tref, base, cnt)
+                        continue
                     n = int(ins.length)
                     if n > 4:
                         raise Unsupported("array longer than the unrolling bound")
@@ -364,7 +454,62 @@ def verify_roundtrip(pv, decl):
     ex.rt_mode = True
     ex.current_fi = fi
     name = decl.name
-    ex.loop_hook = lambda fr, node, ordn: {"unroll": 5}
+    state = {}
+
+    def hook(fr, node, ordn):
+        bld = state.get("bld")
+        cls = fr.fi.cls.name if fr.fi is not None and fr.fi.cls is not None else None
+        d = pv.decls.get(cls)
+        if not isinstance(node, ast.For):
+            raise Unsupported("while loop in round-trip mode (read-to-end of variable-size elements)")
+        if bld is None or d is None:
+            return {"unroll": 5}
+        arrays = [i for i in X.flatten_own(d.body) if i.tag == "array"]
+        if ordn >= len(arrays):
+            return {"unroll": 5}
+        info = bld.sym.get((cls, arrays[ordn].name))
+        if info is None:
+            return {"unroll": 5}
+        rd = ex.rt
+        var = node.target.id
+        lname = arrays[ordn].name
+        ref = fr.env.get(lname)
+        if not (isinstance(ref, Ref) and isinstance(ex.heap.get(ref.id), PyList) and not ex.heap[ref.id].items):
+            raise Unsupported("array loop without its empty result list")
+        al = AbsList(info, I(0))
+        ex.heap[ref.id] = al
+        cs0, mode0 = rd.cs, rd.mode
+        off0, z, data = info["off0"], info["z"], rd.data
+
+        def inv(ex2, fr2):
+            i = fr2.env[var]
+            return [("position", rd.pos == off0 + i * z), ("count", al.count == i), ("chunk-start", rd.cs == cs0),
+                    ("mode", rd.mode == mode0)]
+
+        def on_head(ex2, fr2):
+            i = fr2.env[var]
+            # havoc of the reader / list state happened; block structure of the array piece at index i
+            for leaf in info["layout"]:
+                if leaf[0] is None:
+                    continue
+                path, t, o, w = leaf[0], leaf[1], leaf[2], leaf[3]
+                a = info["A"][path](i)
+                at = off0 + i * z + o
+                inside = z3.And(i >= 0, i < info["n"])
+                if t.kind == "bool":
+                    v = z3.If(a, I(1), I(0))
+                else:
+                    v = a
+                    ex2.fact(z3.Implies(inside, z3.And(v >= 0, v < t.limit)))
+                if t.under == "byte":
+                    ex2.fact(z3.Implies(inside, data[at] == v))
+                else:
+                    p = ENCF(v, I(w))
+                    ex2.fact(z3.Length(p) == w)
+                    ex2.fact(DECF(p) == v)
+                    ex2.fact(z3.Implies(inside, z3.Extract(data, at, I(w)) == p))
+        return {"z3inv": inv, "on_head": on_head, "rt_havoc": (rd, al)}
+    ex.loop_hook = hook
 
     def compare(got, want, path):
         if isinstance(want, tuple) and want[0] == "lit":
@@ -393,6 +538,14 @@ def verify_roundtrip(pv, decl):
                 if k != "__class__":
                     compare(o.fields.get("_" + k), w, path + "." + k)
             return
+        if isinstance(want, tuple) and want[0] == "symarray":
+            lst = ex.heap.get(got.id) if isinstance(got, Ref) else got
+            if not isinstance(lst, AbsList) or lst.info is not want[1]:
+                ex.oblige("roundtrip", z3.BoolVal(False), path, {"why": f"{path}: array not read back by its loop", "property": "C01"})
+                return
+            ex.oblige("roundtrip", lst.count == want[1]["n"], path + ".len",
+                      {"why": f"{path}: number of elements read back differs from the number written", "property": "C01"})
+            return
         if isinstance(want, list):
             lst = ex.heap.get(got.id) if isinstance(got, Ref) else got
             if not isinstance(lst, PyList):
@@ -416,6 +569,7 @@ def verify_roundtrip(pv, decl):
     def run():
         ex.fname = f"{name}.roundtrip"
         bld = Builder(pv, ex)
+        state["bld"] = bld
         ctx = pv.ctx_chunked[name]
         model = bld.obj(decl, "", ctx, ctx)
         terms = []
@@ -438,6 +592,38 @@ def verify_roundtrip(pv, decl):
             off = off + n
         total = simp(off)
         ex.fact(z3.Length(data) == total)
+        # proof hints: the split property of the concatenation, piece by piece - each is proved as
+        # its own obligation, then assumed, so that the reader's Extract terms match by arithmetic alone
+        off = I(0)
+        flat_terms = []          # per piece: its flat unit/terms
+        for k, (t, n, is_break) in enumerate(bld.pieces):
+            if len(bld.pieces) > 1 and k > 0:
+                pre = z3.Concat(*flat_prefix) if len(flat_prefix) > 1 else flat_prefix[0]
+                # canonical form extract(pre ++ p ++ suf, |pre|, |p|) = p, plus |pre| = offset (arithmetic)
+                h1 = z3.Length(pre) == simp(off)
+                h2 = z3.Extract(data, z3.Length(pre), z3.Length(t)) == t
+                ex.oblige("roundtrip-hint", h1, f"offset{k}", {"why": "length of the prefix", "property": "C01"})
+                ex.assume(h1)
+                ex.oblige("roundtrip-hint", h2, f"piece{k}", {"why": "split property of the concatenation", "property": "C01"})
+                ex.assume(h2)
+                ex.assume(z3.Extract(data, simp(off), n) == t)
+            elif len(bld.pieces) > 1:
+                h2 = z3.Extract(data, I(0), z3.Length(t)) == t
+                ex.oblige("roundtrip-hint", h2, f"piece{k}", {"why": "split property of the concatenation", "property": "C01"})
+                ex.assume(h2)
+            if k == 0:
+                flat_prefix = []
+            sub = []
+
+            def flat2(x):
+                if z3.is_app(x) and x.decl().kind() == z3.Z3_OP_SEQ_CONCAT:
+                    for ch in x.children():
+                        flat2(ch)
+                else:
+                    sub.append(x)
+            flat2(t)
+            flat_prefix = flat_prefix + sub
+            off = off + n
         rd = RTReader(ex, data, breaks, ctx, total)
         ex.rt = rd
         rci = repo.lookup(READER_Q)
